@@ -94,8 +94,11 @@ IDENTITIES = {
 }
 
 
-def set_identity(ident: str) -> None:
-    """Make the stubbed terminal identify as ``ident`` and let the library re-detect."""
+def set_identity(ident: str, probe: bool = True) -> None:
+    """Make the stubbed terminal identify as ``ident`` and let the library re-detect.
+
+    ``probe=False`` leaves the detection to whatever the library does by itself next (e.g. the
+    constructor of a graphics-based image)."""
     from term_image.image import BlockImage, ITerm2Image, KittyImage, TextImage
 
     name, version, gfx = IDENTITIES[ident]
@@ -109,8 +112,9 @@ def set_identity(ident: str) -> None:
     inv = getattr(TextImage._is_on_kitty, "_invalidate_cache", None)
     if inv:
         inv()
-    KittyImage.is_supported()
-    ITerm2Image.is_supported()
+    if probe:
+        KittyImage.is_supported()
+        ITerm2Image.is_supported()
 
 
 def set_term(size=None, cell=None, fg_bg=None):
